@@ -472,3 +472,84 @@ Proof.
     replace (Z.to_nat (e + 1 - x)) with (S (Z.to_nat (e - x))) by lia. reflexivity.
 Qed.
 End GetExcChecker.
+
+(* ================= exactly when chunk_bounds terminates ================= *)
+Lemma cb_loop_diverges_gen n cs ov : cs <= ov ->
+  forall fuel s_end ke, s_end - ov + cs < n -> cb_loop fuel n cs ov s_end ke = None.
+Proof.
+  intros Hov. induction fuel as [|f IH]; intros s_end ke H; cbn [cb_loop];
+    replace (s_end - ov + cs <? n) with true by lia; [reflexivity|].
+  rewrite IH by lia. reflexivity.
+Qed.
+
+Lemma cb_loop_terminates n cs ov : ov < cs ->
+  forall fuel s_end ke, n - s_end < Z.of_nat fuel -> exists r, cb_loop fuel n cs ov s_end ke = Some r.
+Proof.
+  intros Hov. induction fuel as [|f IH]; intros s_end ke H; cbn [cb_loop].
+  - replace (s_end - ov + cs <? n) with false by lia. eexists; reflexivity.
+  - destruct (s_end - ov + cs <? n) eqn:E; [|eexists; reflexivity].
+    destruct (IH (s_end - ov + cs) (s_end - ov + cs - ov / 2) ltac:(lia)) as (r & ->).
+    eexists; reflexivity.
+Qed.
+
+Theorem chunk_bounds_terminates_iff n cs ov : 0 <= n -> 0 <= cs ->
+  ((exists l, chunk_bounds n cs ov = Some l) <-> (ov < cs \/ n <= 2 * cs - ov)).
+Proof.
+  intros Hn Hcs. unfold chunk_bounds. split.
+  - intros (l & H). destruct (Z_lt_ge_dec ov cs) as [|Hge]; [now left|right].
+    destruct (Z_le_gt_dec n (2 * cs - ov)) as [|Hgt]; [assumption|exfalso].
+    rewrite (cb_loop_diverges_gen n cs ov ltac:(lia)) in H by lia. discriminate.
+  - intros [H|H].
+    + destruct (cb_loop_terminates n cs ov H (Z.to_nat n + 1) cs (cs - ov / 2) ltac:(lia)) as (r & ->).
+      eexists; reflexivity.
+    + destruct (Z.to_nat n + 1)%nat as [|f] eqn:Ef; [lia|]. cbn [cb_loop].
+      replace (cs - ov + cs <? n) with false by lia. eexists; reflexivity.
+Qed.
+
+(* ================= the assert exits of the other helpers ================= *)
+Lemma assert_exits :
+  (forall sizes cs, cs <= 0 -> get_chunk_bounds sizes cs = None) /\
+  (forall cs, 0 < cs -> get_chunk_bounds [] cs = Some []) /\
+  (forall n k size, k < 2 -> excerpts n k size = None) /\
+  (forall cb bs, 1 <= bs -> zlen cb <= 1 -> iter_mtscomp cb bs = None).
+Proof.
+  split; [|split; [|split]].
+  - intros sizes cs H. unfold get_chunk_bounds. now replace (0 <? cs) with false by lia.
+  - intros cs H. unfold get_chunk_bounds. now replace (0 <? cs) with true by lia.
+  - intros n k size H. unfold excerpts. now replace (2 <=? k) with false by lia.
+  - intros cb bs Hbs H. unfold iter_mtscomp, iter_mtscomp_idx.
+    assert (E : (zlen cb - 1 + bs - 1) / bs <= 0).
+    { apply Z.lt_succ_r. apply Z.div_lt_upper_bound; lia. }
+    replace (Z.to_nat ((zlen cb - 1 + bs - 1) / bs)) with O by lia. reflexivity.
+Qed.
+
+(* ================= reading a reader chunk by chunk ================= *)
+Lemma sorted_le_last : forall l z, sortedZ (z :: l) -> z <= last (z :: l) 0.
+Proof.
+  induction l as [|w l IHl]; intros z Hz; [cbn [last]; lia|].
+  inversion Hz; subst. change (last (z :: w :: l) 0) with (last (w :: l) 0).
+  specialize (IHl w ltac:(assumption)). lia.
+Qed.
+
+Lemma iter_base_chunks cs : forall r x, 0 <= x -> chainP cs x r ->
+  Forall (fun i => 0 <= lo i /\ lo i < hi i /\ hi i - lo i <= cs /\ hi i <= last (x :: r) 0)
+         (iter_base (x :: r)).
+Proof.
+  induction r as [|y r IH]; intros x Hx Hc; [constructor|].
+  cbn [chainP] in Hc. destruct Hc as (Ha & Hb & Hc). cbn [iter_base].
+  change (last (x :: y :: r) 0) with (last (y :: r) 0). constructor.
+  - cbn [lo hi]. repeat split; try lia. apply sorted_le_last. eapply chainP_sorted; exact Hc.
+  - apply IH; [lia|exact Hc].
+Qed.
+
+Theorem reader_chunks_data {A} (data : list A) sizes cs :
+  sizes <> [] -> (forall x, In x sizes -> 0 <= x) -> 1 <= cs -> zlen data = zsum sizes ->
+  exists b, get_chunk_bounds sizes cs = Some b /\
+    concat (map (iv_slice data) (filter nonempty (iter_base b))) = data /\
+    Forall (fun i => 0 <= lo i /\ lo i < hi i /\ hi i - lo i <= cs /\ hi i <= zlen data) (iter_base b).
+Proof.
+  intros H1 H2 H3 Hd. destruct (reader_bounds sizes cs H1 H2 H3) as (b & Hb & r & -> & Hc & Hl & _).
+  exists (0 :: r). split; [exact Hb|]. split.
+  - apply tiles_data. rewrite Hd. apply iter_base_tiles; [exists r, cs; split; [reflexivity|exact Hc]|exact Hl].
+  - rewrite Hd, <- Hl. apply iter_base_chunks; [lia|exact Hc].
+Qed.
